@@ -28,7 +28,7 @@ ASSUMPTIONS = [
     "documented preconditions (set_ncomp: no recordings/inputs/trainables, not a network, not all branches, uniform branch) make a refusal legitimate; "
     "any other refusal of an editing op ends the history and is listed under refusals, an exception inside pandas/NumPy/JAX under internal_crashes",
     "an exception of a delete_* call, and any exception of integrate on a module whose tables pass the invariants, is a violation",
-    "states are recorded/clamped only where they exist; CaT is not inserted (open finding N6)",
+    "states are recorded/clamped only where they exist",
     "reference simulator R3 (vp/ref/sim.py); tolerance 1e-6 + 1e-8*scale over 4 steps; integrate is called with params=[] so that it simulates the tables",
 ]
 TECHNIQUE = "model-based property testing of call histories (Hypothesis op lists with late-bound targets; bounded exhaustive enumeration in the thorough tier): invariants + frame conditions + reference simulator"
@@ -273,8 +273,6 @@ def judge(spec, tier="quick"):
         out.violate("integrate-shape", f"integrate returned {got.shape} for {len(recs)} recordings and {T} steps; {label}")
         return out
     t = R3.extract(m)
-    if any(cls == "CaT" for cls, _ in t["channels"]):
-        return out
     hist = R3.simulate(t, T, 0.025, spec["solver"])
     if not np.isfinite(hist["v"]).all() or np.max(np.abs(hist["v"])) > 300:
         out.filtered += 1
